@@ -75,6 +75,8 @@ def case(ctx, case):
     td0 = env.reset(td_in.clone())
     insts = [O.extract(td_in, td0, b, env) for b in range(B)]
     sig = dict(env=name, select_best=case["select_best"], temp=("1" if T == 1.0 else via), history=bool(case.get("warm")))
+    if case.get("policy", "am") != "am":
+        sig["policy"] = case["policy"]
     tol = lambda x: 1e-4 * max(1.0, abs(x))
     if T != 1.0:
         ctx.count("c13_temperature_cases")
